@@ -50,7 +50,7 @@ def main():
         g = vlib.tlc("store", "MetaCodecMC", "MetaCodecGen.cfg", scratch=sc, timeout=1200, workers=4,
                      simulate=(2500 if thorough else 400), depth=14, seed=run.seed, consts="CONSTANT MaxOps = %d" % (9 if thorough else 7))
         vlib.expect_tlc_ok(g, "MetaCodecGen-sim")
-        behs = list(g.traces)
+        behs = sorted(g.traces, key=lambda b: json.dumps(b, sort_keys=True))
         g2 = vlib.tlc("store", "MetaCodecMC", "MetaCodecGen.cfg", scratch=sc, timeout=1200, consts="CONSTANT MaxOps = 3")
         vlib.expect_tlc_ok(g2, "MetaCodecGen-3")
         # exhaustive depth 3 = Open, Write, Close ...; keep those that contain a Close (others commit nothing)
